@@ -428,6 +428,24 @@ func runC05E2E(t *testing.T, rng *rand.Rand, rec *sim.Rec, tier string, caseNo i
 	time.Sleep(2 * time.Second) // the binding is confirmed by now
 	burst("channel")
 	indications("with-channel-bound")
+	if ctrl != nil && (caseNo/4)%2 == 1 {
+		// one application write larger than any ChannelData message can carry (the length field has
+		// 16 bits), over the stream transport: it cannot be relayed whole, so it is dropped or
+		// refused - the peer sees nothing of it, nobody else either, and the stream stays in step
+		big := make([]byte, pick(rng, []int{65536, 65537, 65540, 70000, 131073}))
+		rng.Read(big)
+		peer.UDP.Drain()
+		alt.UDP.Drain()
+		_, werr := conn.WriteTo(big, peer.Addr)
+		time.Sleep(50 * time.Millisecond)
+		for _, d := range append(peer.UDP.Drain(), alt.UDP.Drain()...) {
+			rec.Violate("e2e-altered", "oversized-write/tcp", "WriteTo of %d bytes (err=%v) made the relay send %d bytes %x... to %s", len(big), werr, len(d.Data), head(d.Data), d.Dst)
+
+			return
+		}
+		rec.FP("e2e/oversized-write/tcp/refused=%v", werr != nil)
+		burst("after-oversized-write")
+	}
 	if ctrl != nil && (caseNo/2)%2 == 0 {
 		// the client's host stops reading its control connection for a few seconds while the peer
 		// keeps sending (the server's writes meet TCP flow control: 4 KiB in flight at most); when it
